@@ -5,6 +5,8 @@ from vlib import xhex
 from props.codec_common import *
 
 THEOREMS = ["C02_wire_format"]
+REPEAT = 2            # case lines repeated 66 000 times on one thread (state that builds up over many calls)
+REPEAT_CMDS = ('SPEC',)
 RELEASE = True          # debug and release builds of the harness (debug_assert!, overflow checks, cfg(debug_assertions))
 RULE = ("SPEC <bundle> over the C01 domain (see C01); implementation bytes are compared with (a) the extracted Coq specification "
         "encoder rfc_bytes and (b) the Python reference encoder; non-trivial = distinct line with an extension block or a CRC")
